@@ -18,6 +18,7 @@ def step_worker(args):
     try:
         M = load_lib(src, profile, mir)
         M.qtimeout = 300
+        M.deadline = time.time() + (600 if os.environ.get('VERIF_TIER', 'quick') == 'quick' else 5400)
         S0 = None
         extra = []
         if ctor:
